@@ -9,8 +9,8 @@ EXTRA = {  # seed -> other checks worth running
     "C01-1": ["C05"], "C01-2": ["C08"], "C02-1": ["C17", "C03"], "C02-2": ["C10", "C03"], "C03-1": ["C10"], "C03-2": ["C17"],
     "C04-1": ["C05"], "C04-2": ["C11"], "C06-1": ["C05", "C16"], "C06-2": [], "C09-2": ["C03", "C06"], "C12-1": ["C06", "C16"],
     "C13-2": ["C12"], "C16-1": ["C05", "C06"], "C16-2": ["C06", "C12"], "C20-1": ["C04"], "D-decoder-string": ["C11", "C04"],
-    "C01-3": ["C10", "C03"], "C01-4": ["C06", "C14"], "C02-3": ["C03", "C17"], "C02-4": ["C14"], "C03-3": ["C08", "C11"], "C03-4": ["C10"],
-    "C04-3": ["C11"], "C04-4": ["C07"], "C05-3": ["C04"], "C06-3": ["C01", "C14"], "C07-3": ["C15"], "C08-3": ["C11", "C03"], "C08-4": ["C02"],
+    "C01-3": ["C10", "C03"], "C01-4": ["C06", "C15"], "C02-3": ["C03", "C17"], "C02-4": ["C14"], "C03-3": ["C08", "C11"], "C03-4": ["C10"],
+    "C04-3": ["C11"], "C04-4": ["C07"], "C05-3": ["C04"], "C06-3": ["C01", "C15"], "C07-3": ["C15"], "C08-3": ["C11", "C03"], "C08-4": ["C02"],
     "C09-3": ["C17"], "C09-4": ["C06", "C04"], "C10-3": ["C03"], "C10-4": ["C03"], "C11-3": ["C03", "C04"], "C11-4": ["C08", "C03"],
     "C12-3": ["C16"], "C12-4": ["C04"], "C13-3": ["C06"], "C17-4": ["C03", "C02"], "C18-3": [], "C20-3": ["C03"], "C20-4": ["C04"],
     "D-builder-selection": ["C12"], "D-specconstop-panic": ["C04", "C03", "C20"], "D-specconstop-quantifier": ["C03"], "D-disas-constant": ["C04", "C20"],
@@ -23,6 +23,11 @@ for d in sorted(os.listdir(SEEDS)):
         continue
     if only and d not in only:
         continue
+    try:
+        if json.load(open(os.path.join(p, "meta.json"))).get("stale"):
+            continue
+    except Exception:
+        pass
     own = d.split("-")[0] if re.match(r"^C\d\d-", d) else None
     checks = ([own] if own else []) + EXTRA.get(d, [])
     for c in dict.fromkeys(checks):
